@@ -121,3 +121,89 @@ Proof.
   destruct (char_at s off =? 39); [cbn [Z.eqb]; apply title_scan_regen2|].
   destruct (char_at s off =? 40); [cbn [Z.eqb]; apply title_scan_regen3|reflexivity].
 Qed.
+
+(* ---- the scanners of link reference definitions: block_token.Footnote.match_link_label / _dest / _title ----
+   (the plain-destination loop ends by `break` at white space or by exhaustion, and the code after it reads the loop
+   index: the translation passes the index to a definition of its own, i - 1 when the loop ran out) *)
+From Mistletoe Require Import Model.Block.
+
+Lemma fn_label_regen s offset : forall l i start esc,
+  g_fn_match_link_label_loop1 l i s offset start esc =
+  match fn_label_scan l i offset start esc with
+  | Some (st, en) => let label := substr s (st + 1) en in if negb (is_blank label) then Some (st, en + 1, label) else None
+  | None => None
+  end.
+Proof.
+  induction l as [|c r IH]; intros i start esc; cbn [g_fn_match_link_label_loop1 fn_label_scan]; [reflexivity|]. cbv zeta beta.
+  destruct esc.
+  - destruct ((start =? -1) && negb ((c =? 32) && (i - offset <? 3))); [reflexivity|apply IH].
+  - destruct (c =? 92).
+    + destruct ((start =? -1) && negb ((c =? 32) && (i - offset <? 3))); [reflexivity|apply IH].
+    + destruct (c =? 91).
+      * destruct (start =? -1); [|reflexivity]. destruct ((i =? -1) && negb ((c =? 32) && (i - offset <? 3))); [reflexivity|apply IH].
+      * destruct (c =? 93); [reflexivity|]. destruct ((start =? -1) && negb ((c =? 32) && (i - offset <? 3))); [reflexivity|apply IH].
+Qed.
+
+Theorem fn_match_label_regen s offset : g_fn_match_link_label s offset = fn_match_label s offset.
+Proof.
+  unfold g_fn_match_link_label, fn_match_label. cbv zeta. rewrite fn_label_regen.
+  destruct (fn_label_scan (drop offset s) offset offset (-1) false) as [[st en]|]; reflexivity.
+Qed.
+
+Lemma fn_dest_angle_regen s off : forall l i esc,
+  g_fn_match_link_dest_loop1 l i s off esc = match fn_dest_angle l i esc with Some j => Some (off, j + 1, substr s (off + 1) j) | None => None end.
+Proof.
+  induction l as [|c r IH]; intros i esc; cbn [g_fn_match_link_dest_loop1 fn_dest_angle]; [reflexivity|].
+  destruct ((c =? 92) && negb esc); [apply IH|].
+  destruct ((c =? 10) || (c =? 60) && negb esc); [reflexivity|].
+  destruct ((c =? 62) && negb esc); [reflexivity|].
+  destruct esc; apply IH.
+Qed.
+
+Lemma fn_dest_plain_regen s off : forall l i esc count,
+  g_fn_match_link_dest_loop2 l i s off esc count =
+  match fn_dest_plain l i esc count with
+  | Some (j, cnt) => if negb (cnt =? 0) then None else Some (off, j, substr s off j)
+  | None => None
+  end.
+Proof.
+  induction l as [|c r IH]; intros i esc count; cbn [g_fn_match_link_dest_loop2 fn_dest_plain]; [reflexivity|].
+  destruct ((c =? 92) && negb esc); [apply IH|].
+  destruct (is_ws c); [reflexivity|]. destruct esc; cbn [negb].
+  - change (g_is_control_char c) with (is_control_char c). destruct (is_control_char c); [reflexivity|apply IH].
+  - destruct (c =? 40); [apply IH|]. destruct (c =? 41); apply IH.
+Qed.
+
+Theorem fn_match_dest_regen s offset : g_fn_match_link_dest s offset = fn_match_dest s offset.
+Proof.
+  unfold g_fn_match_link_dest, fn_match_dest. cbv zeta. destruct (char_at s offset =? 60).
+  - apply fn_dest_angle_regen.
+  - rewrite fn_dest_plain_regen. destruct (fn_dest_plain (drop offset s) offset false 0) as [[j cnt]|]; reflexivity.
+Qed.
+
+Lemma fn_title_regen1 s off : forall l i closing esc,
+  g_fn_match_link_title_loop1 l i s off closing esc = match title_scan l i closing esc with Some j => Some (off, j + 1, substr s (off + 1) j) | None => None end.
+Proof.
+  induction l as [|c r IH]; intros i closing esc; cbn [g_fn_match_link_title_loop1 title_scan]; [reflexivity|].
+  destruct ((c =? 92) && negb esc); [apply IH|]. destruct ((c =? closing) && negb esc); [reflexivity|]. destruct esc; apply IH.
+Qed.
+Lemma fn_title_regen2 s off : forall l i closing esc,
+  g_fn_match_link_title_loop2 l i s off closing esc = match title_scan l i closing esc with Some j => Some (off, j + 1, substr s (off + 1) j) | None => None end.
+Proof.
+  induction l as [|c r IH]; intros i closing esc; cbn [g_fn_match_link_title_loop2 title_scan]; [reflexivity|].
+  destruct ((c =? 92) && negb esc); [apply IH|]. destruct ((c =? closing) && negb esc); [reflexivity|]. destruct esc; apply IH.
+Qed.
+Lemma fn_title_regen3 s off : forall l i closing esc,
+  g_fn_match_link_title_loop3 l i s off closing esc = match title_scan l i closing esc with Some j => Some (off, j + 1, substr s (off + 1) j) | None => None end.
+Proof.
+  induction l as [|c r IH]; intros i closing esc; cbn [g_fn_match_link_title_loop3 title_scan]; [reflexivity|].
+  destruct ((c =? 92) && negb esc); [apply IH|]. destruct ((c =? closing) && negb esc); [reflexivity|]. destruct esc; apply IH.
+Qed.
+
+Theorem fn_match_title_regen s offset : g_fn_match_link_title s offset = fn_match_title s offset.
+Proof.
+  unfold g_fn_match_link_title, fn_match_title. cbv zeta. destruct (offset =? slen s); [reflexivity|].
+  destruct (char_at s offset =? 34); [cbn [Z.eqb]; apply fn_title_regen1|].
+  destruct (char_at s offset =? 39); [cbn [Z.eqb]; apply fn_title_regen2|].
+  destruct (char_at s offset =? 40); [cbn [Z.eqb]; apply fn_title_regen3|reflexivity].
+Qed.
